@@ -4,6 +4,7 @@
 (*   rules   : S as above, rulekeys = forest keys of the concrete rules handed out for them (for a *)
 (*             rule handed out in equivalence form also the key of the rule it was made from),      *)
 (*             nrules = number of rules handed out                                                  *)
+(*   outcome : kind = how the search ended ("spec" | "none" | "timeout" | "budget" | "error")       *)
 EXTENDS ForestExtract, Json, IOUtils
 Traces == ndJsonDeserialize(IOEnv.TRACE_FILE)
 VARIABLES t, l
@@ -17,6 +18,10 @@ Clause(e) ==
          THEN "EachExtractedKeyIsRealisedByAConcreteRuleWithThatKey"
          ELSE IF e.nrules # Cardinality({i \in 1..Len(e.S) : ~e.S[i].empty}) THEN "OneConcreteRulePerExtractedKey"
          ELSE "ok"
+    [] e.op = "outcome" ->
+         \* a search ends with a specification, with "no specification", or at its time / work budget - never by raising
+         \* out of the extraction (e.g. no concrete rule could be re-created for an extracted key)
+         IF e.kind \in {"spec", "none", "timeout", "budget"} THEN "ok" ELSE "ExtractionHandsOutAConcreteRuleForEveryKeyWithoutRaising"
     [] OTHER -> "UnknownEvent"
 Init == t = 1 /\ l = 1 /\ TLCSet(1, 0)
 Step == /\ t <= Len(Traces) /\ l <= Len(Traces[t].events)
